@@ -38,6 +38,18 @@ P = {
          "Opposite-endian fragments are synthesised as such a writer would store them; a big-endian host cannot be run.", "TLC; synthesised twins."),
  "C12": (MC, "5/C12", "TLC trace validation of is_invalid_fragment / verify_stripe_metadata verdicts against Wire!FragmentInvalid / StripeFails over foreign and edited fragments",
          "The statement's list of reasons is the specification, evaluated from the bytes.", "TLC; ASan/UBSan."),
+ "C13": (MC, "5/C13", "TLC model checking of the API state machine (failed calls change nothing) + TLC trace validation of argument-class histories and the create box recorded under ASan/UBSan with the allocation ledger",
+         "Every entry point x every argument class of DESIGN Appendix B is executed on the real library; TLC decides the refusal class from the Libec model and checks that nothing stays allocated; crashes are Fault events.",
+         "TLC; ASan/UBSan and the ledger as monitors; only the class rc < 0 is demanded, not the code."),
+ "C14": (MC, "5/C14", "TLC model checking of the registry (descriptor allocation with wrap, complete state graph) + replay of every transition into the real library + TLC trace validation with MaxInt = INT_MAX",
+         "The allocation rule is transcribed with two's-complement wrap; the tiny counter range makes every wrap/collision configuration reachable in the model; the real registry is driven into the same configurations by presetting next_backend_desc and every event is validated exactly (descriptor value, counter, projection, GF-table presence).",
+         "TLC; the projection uses the exported lookup and the exported counter."),
+ "C16": (MC, "5/C16", "TLC model checking of the ownership model + TLC trace validation of the relative ledger rules R1-R6 on replayed behaviours and random histories",
+         "Leaks, double frees and frees of caller memory are made observable by an allocation ledger compiled into the library build and by ASan; the specification states which call owes what.",
+         "TLC; allocation ledger (-D redirected allocator); ASan."),
+ "C17": ("fault_enumeration", "5/C17", "fault enumeration over (backend, operation, n-th call, variant) with TLC trace validation of every run against Libec + ledger rules",
+         "Each backend operation is made to fail at each position of a scripted workload; the recorded history must satisfy: error returned, delta 0, nothing owed, registry unchanged, continuation succeeds.",
+         "TLC; failing stubs installed through the backend's exported operation table; reference ISA-L plug-in's inversion-failure knob."),
  "C20": (MC, "5/C20", "TLC trace validation of forced-check decodes over every absent/intact/damaged assignment of small stripes",
          "rc=0 => original bytes; valid fragments alone within tolerance => success.", "TLC; driver memcmp; ASan/UBSan."),
 }
